@@ -22,9 +22,10 @@ ORDER = []
 LOOP_SPECS = {}        # (function key, loop ordinal) -> {"invariant": f(L), "havoc": {name: kind}, "hints": f(L) -> [lemma instances]}
 
 
-def loop_invariant(fn_key, ordinal, havoc=None, hints=None, np_flags=None):
+def loop_invariant(fn_key, ordinal, havoc=None, hints=None, np_flags=None, exit_hints=None):
     def deco(f):
-        LOOP_SPECS[(fn_key, ordinal)] = {"invariant": f, "havoc": havoc or {}, "hints": hints or (lambda v: []), "np": np_flags or {}}
+        LOOP_SPECS[(fn_key, ordinal)] = {"invariant": f, "havoc": havoc or {}, "hints": hints or (lambda v: []), "np": np_flags or {},
+                                         "exit_hints": exit_hints or (lambda v: [])}
         return f
     return deco
 
@@ -529,20 +530,35 @@ DYADIC_DEN = 16
 DYADIC_MAX = 4096
 
 
+def _goal_conjuncts(g):
+    if z3.is_and(g):
+        out = []
+        for ch in g.children():
+            out += _goal_conjuncts(ch)
+        return out
+    return [g]
+
+
 def solve(hyps, goal, timeout_ms=20000, dyadic_syms=None, seed=0):
     """returns ('proved'|'refuted'|'unknown', model or None, seconds, reason)"""
     t0 = time.time()
     from . import induct
     if induct.SPEC and induct.mentions_spec(list(hyps) + [goal]):
         # recursive spec functions: first with uninterpreted twins and explicit instances of the defining equations
-        # (stable, milliseconds); z3's own unfolding of the definitions below is the fallback and the source of models
-        terms, axioms = induct.with_unfoldings(list(hyps) + [z3.Not(goal)])
-        s = z3.Solver()
-        s.set("timeout", max(2000, timeout_ms // 2))
-        s.set("random_seed", seed)
-        s.add(*terms)
-        s.add(*axioms)
-        if s.check() == z3.unsat:
+        # (stable, milliseconds), one query per conjunct of the goal; z3's own unfolding of the definitions below is the
+        # fallback and the source of models
+        all_proved = True
+        for cj in _goal_conjuncts(goal):
+            terms, axioms = induct.with_unfoldings(list(hyps) + [z3.Not(cj)])
+            s = z3.Solver()
+            s.set("timeout", max(2000, timeout_ms // 2))
+            s.set("random_seed", seed)
+            s.add(*terms)
+            s.add(*axioms)
+            if s.check() != z3.unsat:
+                all_proved = False
+                break
+        if all_proved:
             return "proved", None, time.time() - t0, ""
     s = z3.Solver()
     s.set("timeout", timeout_ms)
@@ -890,13 +906,18 @@ def verify(cname, cfg, timeout_ms=20000, seed=0, repo_src=None, samples=0):
             kind, name, hyps, goal = rec_[:4]
             relaxed = rec_[4] if len(rec_) > 4 else None
             oname = f"{c.name}#{kind}:{name}@{cid}/{path}"
-            status, model, secs, reason = solve(hyps, goal, timeout_ms, None, seed)
+            # a clause with a known-finding region: a short first attempt at the clause itself, then the relaxed clause
+            first_ms = timeout_ms if relaxed is None else min(timeout_ms, 8000)
+            status, model, secs, reason = solve(hyps, goal, first_ms, None, seed)
             res.solver_s += secs
             if status != "proved" and relaxed is not None:
                 st2, _, secs2, _ = solve(hyps, relaxed[1], timeout_ms, None, seed)
                 res.solver_s += secs2
                 if st2 == "proved":
                     status = "known:" + relaxed[0]
+                elif status == "unknown" and first_ms < timeout_ms:
+                    status, model, secs, reason = solve(hyps, goal, timeout_ms, None, seed)
+                    res.solver_s += secs
             if status in ("refuted", "unknown"):
                 t1 = time.time()
                 dm = dyadic_model(hyps, goal, b.symbols, min(timeout_ms, 10000))
